@@ -73,24 +73,27 @@ class Keccak(object):
     def __call__(self,M,bitlen=None,r=None):
         # create state (null) :
         S = State(self.w)
-        # set rate:
+        # set rate (a rate given here applies to this call only):
+        r0 = self.r
         if r is None:
             assert self.r
             r = self.r
         else:
             self.setrate(r)
+        try:
+            #Absorbing phase
+            for Pi in self.iterblocks(M,bitlen):
+                Ps = State(self.w).load(Pi)
+                S = self.f(S^Ps)
 
-        #Absorbing phase
-        for Pi in self.iterblocks(M,bitlen):
-            Ps = State(self.w).load(Pi)
-            S = self.f(S^Ps)
-
-        #Squeezing phase
-        Z = S.dump(r)
-        while len(Z)<self.outlen:
-            S = self.f(S)
-            Z = Z//S.dump(r)
-        return pack(Z[:self.outlen])
+            #Squeezing phase
+            Z = S.dump(r)
+            while len(Z)<self.outlen:
+                S = self.f(S)
+                Z = Z//S.dump(r)
+            return pack(Z[:self.outlen])
+        finally:
+            self.setrate(r0)
 
     def iterblocks(self,M,bitlen=None):
         needed = len(M)*8
